@@ -304,6 +304,117 @@ def history_cases(rng, n):
     return out
 
 
+# ----------------------------------------------------------------- pre-state of the target: overwrite=True on a shared container
+PRESTATES = ["same+masks", "renamed", "superset", "unrelated"]
+
+
+def _alt_mask(k):
+    m = np.zeros(k, dtype=bool)
+    m[::2] = True
+    return m
+
+
+def prestate_graph(g, kind):
+    """the geff that occupies the target BEFORE the write under test: built from the graph to come so that stale arrays
+    would be visible afterwards — the same property names with missing masks everywhere (the new write has none or
+    others), renamed / additional properties (dense, masked, var-length), or an unrelated graph"""
+    if kind == "unrelated":
+        obj = np.empty(3, dtype=object)
+        for i in range(3):
+            obj[i] = np.arange(i + 1, dtype="int32")
+        return {"node_ids": np.array([1, 2, 3], dtype="uint8"), "edge_ids": np.array([[1, 2]], dtype="uint8"),
+                "node_props": {"p": {"values": np.arange(3, dtype="int16"), "missing": np.array([True, False, True])},
+                               "vl": {"values": obj, "missing": np.array([False, True, False])}},
+                "edge_props": {"w": {"values": np.array([1.5], dtype="float32"), "missing": np.array([True])}}}
+    out = {"node_ids": g["node_ids"].copy(), "edge_ids": g["edge_ids"].copy()}
+    for key, k in (("node_props", len(g["node_ids"])), ("edge_props", len(g["edge_ids"]))):
+        props = {}
+        for nm, p in (g[key] or {}).items():
+            name = nm + "_o" if kind == "renamed" else nm
+            props[name] = {"values": p["values"].copy(), "missing": _alt_mask(k)}
+        if kind == "superset":
+            props["zz_old"] = {"values": np.arange(k, dtype="int16"), "missing": _alt_mask(k)}
+            obj = np.empty(k, dtype=object)
+            for i in range(k):
+                obj[i] = np.full((i % 3,), 7, dtype="uint8")
+            props["zv_old"] = {"values": obj, "missing": _alt_mask(k)}
+        out[key] = props
+    return out
+
+
+def overwrite_run(case):
+    """the target is a zarr container that holds a foreign sibling array, a foreign attribute and an OLDER geff
+    (`prestate_graph`); the graph of the case is written over it with overwrite=True and read back.  Oracle: exactly
+    what was written LAST comes back (the same numpy-level specification as for fresh targets)."""
+    import copy
+
+    import zarr
+
+    from geff.core_io import read_to_memory, write_arrays
+
+    g = R.build_geff(case["g"])
+    md = case.get("md") or {}
+    fmt = case.get("fmt", 2)
+    obs = {"pre": None, "write": None, "read": None, "spec": [], "sibling_kept": None}
+    with R.StoreCtx(case.get("store", "mem")) as store:
+        try:
+            root = zarr.open_group(store, mode="a", zarr_format=fmt)
+            root["raw_sibling"] = np.arange(4, dtype="uint8")
+            root.attrs["foreign"] = {"k": 1}
+            old = prestate_graph(g, case["prestate"])
+            write_arrays(store, old["node_ids"], old["node_props"], old["edge_ids"], old["edge_props"],
+                         make_metadata({"directed": bool(md.get("directed", True))}), zarr_format=fmt, structure_validation=False)
+            read_to_memory(store, structure_validation=False)
+            obs["pre"] = "ok"
+        except BaseException as e:  # noqa: BLE001
+            obs["pre"] = exc_class(e)            # the pre-state could not be set up: nothing is judged
+            obs["pre_msg"] = str(e)[:200]
+            return obs
+        gin = copy.deepcopy(g)
+        try:
+            write_arrays(store, gin["node_ids"], gin["node_props"], gin["edge_ids"], gin["edge_props"], make_metadata(md),
+                         zarr_format=fmt, structure_validation=case.get("validate", True), overwrite=True)
+            obs["write"] = "ok"
+        except BaseException as e:  # noqa: BLE001
+            obs["write"] = exc_class(e)
+            obs["write_msg"] = str(e)[:200]
+            return obs
+        try:
+            o = read_to_memory(store, structure_validation=case.get("validate", True))
+            obs["read"] = "ok"
+        except BaseException as e:  # noqa: BLE001
+            obs["read"] = exc_class(e)
+            obs["read_msg"] = str(e)[:200]
+            return obs
+        obs["spec"] = R.same_graph(expected_graph(g, md), o)
+        try:
+            sib = zarr.open_group(store, mode="r")["raw_sibling"][...]
+            obs["sibling_kept"] = bool(np.array_equal(sib, np.arange(4, dtype="uint8")))
+        except BaseException as e:  # noqa: BLE001
+            obs["sibling_kept"] = exc_class(e)
+    return obs
+
+
+def prestate_cases(base, quick):
+    """every k-th well-formed graph of the fresh-target streams, with the pre-state kinds, formats and store kinds
+    rotating"""
+    wf = [c for c in base if wf_case(c) and not c.get("node_unsquish") and not c.get("edge_unsquish")]
+    step = 8 if quick else 2
+    out = []
+    kinds = ["mem", "mem", "mem", "local", "mem", "path", "mem", "str"]
+    for i, c in enumerate(wf[::step]):
+        out.append({**c, "prestate": PRESTATES[i % 4], "fmt": 2 + (i // 4) % 2, "store": kinds[(i // 8) % 8],
+                    "origin": "prestate"})
+    # the minimal scenario of a stale mask: the same masked property written again without mask
+    nid, eid = tiny_ids("uint8", 2, 1)
+    p_ = ["p", {"values": det_array("int16", [2], 1), "missing": None}]
+    for fmt in (2, 3):
+        for store in ("mem", "local", "path", "str"):
+            out.append({"g": {"node_ids": nid, "edge_ids": eid, "node_props": [p_], "edge_props": []}, "prestate": "same+masks",
+                        "fmt": fmt, "store": store, "origin": "prestate-minimal"})
+    return out
+
+
 # ----------------------------------------------------------------- well-formedness (python mirror, for tagging only)
 def wf_prop(p, n):
     v, m = p["values"], p["missing"]
@@ -677,7 +788,7 @@ MODEL_VALID_DTYPES = ("bool", "int8", "int16", "int32", "int64", "uint8", "uint1
 
 
 def run(ck: common.Check):
-    ck.prove(["GeffProps.C01", "GeffProps.C01ReadOpts"])
+    ck.prove(["GeffProps.C01", "GeffProps.C01ReadOpts", "GeffProps.C01Gen"])
     # library tie: the dtype list hard-wired in GeffModel/WriteRead.lean (`validDtypes`) is the source's VALID_DTYPES
     from geff_spec._valid_values import VALID_DTYPES
     if tuple(VALID_DTYPES) != MODEL_VALID_DTYPES:
@@ -692,7 +803,10 @@ def run(ck: common.Check):
                "targets sharing one GeffMetadata instance / the metadata read from the previous geff / the same property "
                "dicts and values arrays with the masks removed, inverted or shifted between the writes, each followed by a "
                "validated read (also after structure_validation=False); single writes in which several node/edge properties "
-               "alias one ndarray or overlapping views of it with different masks; "
+               "alias one ndarray or overlapping views of it with different masks; every 8th (quick) / 2nd (thorough) well-formed "
+               "graph also written with overwrite=True into a container that already holds a foreign sibling array, a foreign "
+               "attribute and an OLDER geff (same names with masks everywhere / renamed / superset incl. var-length / unrelated), "
+               "formats and store kinds rotating, judged by the same oracle (what was written last comes back); "
                "non-trivial = at least one node or one property; distinct = distinct canonical case JSON")
     cases = [c for c in R.corpus(PROP) if "steps" not in c]
     base = rotate_layouts(exhaustive(ck.quick)) + special_cases()
@@ -736,6 +850,28 @@ def run(ck: common.Check):
                    f"validated read raised {last['read']}: {last.get('msg')}" if last["read"] != "ok" else last["spec"][0][1]))
         ck.fail(key, what, {"history": h}, last, "every well-formed write succeeds and round-trips, whatever the shared objects went through")
     ck.extra["histories"] = len(hists)
+
+    # pre-state of the target: the same graphs written with overwrite=True over an older geff in a shared container
+    pcases = [c for c in R.corpus(PROP + "/prestate")] + prestate_cases(base, ck.quick)
+    pobs = common.pmap(overwrite_run, pcases, chunksize=8)
+    n_judged = 0
+    for c, ob in zip(pcases, pobs):
+        if ob["pre"] != "ok":
+            ck.case(c, f"prestate:{c['prestate']}:setup-{ob['pre']}", nontrivial=False)
+            continue
+        n_judged += 1
+        good = ob["write"] == "ok" and ob["read"] == "ok" and not ob["spec"]
+        ck.case(c, f"prestate:{c['prestate']}:{c.get('store', 'mem')}{c.get('fmt', 2)}:" + ("ok" if good else "fails")
+                + ("" if ob["sibling_kept"] in (True, None) else ":sibling-lost"), nontrivial=True)
+        if good:
+            continue
+        key = ("C01:overwrite-write-raises" if ob["write"] != "ok" else "C01:overwrite-read-raises" if ob["read"] != "ok"
+               else "C01:overwrite-stale:" + ob["spec"][0][0].split(":", 1)[-1])
+        what = (f"target holding an older geff ({c['prestate']}) next to a foreign sibling, overwrite=True: "
+                + (f"write_arrays raised {ob['write']}: {ob.get('write_msg')}" if ob["write"] != "ok" else
+                   f"read_to_memory raised {ob['read']}: {ob.get('read_msg')}" if ob["read"] != "ok" else ob["spec"][0][1]))
+        ck.fail(key, what, c, ob, "what is read back is exactly the graph written last")
+    ck.extra["prestate_cases"] = {"run": len(pcases), "judged": n_judged}
 
     # read-side configurations: one written store read back under many configurations
     rc_cases = [c for c in R.corpus(PROP + "/readcfg")] + RC.cases(ck.rng, ck.quick)
@@ -809,7 +945,8 @@ def run(ck: common.Check):
         "numpy's choice of unicode width on the cast back is outside the Lean model (one `str` dtype); the python oracle compares the exact width",
         "the final validate_structure step of write_arrays belongs to C04's model; here it is a parameter assumed to accept the written store "
         "(checked on every case against the real validator)",
-        "overwrite=True / an existing geff in the target (check_for_geff, delete_geff) is C06's subject; the model covers a target without nodes/edges entries",
+        "overwrite=True onto an existing geff is covered by the pre-state stream and its model-free oracle only (check_for_geff / delete_geff "
+        "are C06's subject; the Lean theorems cover a target without a geff, generated writer included)",
     ]
 
 
@@ -817,6 +954,12 @@ def replay(rp):
     c = rp["case"]
     if "configs" in c:
         return RC.replay(c)
+    if "prestate" in c:
+        ob = overwrite_run(c)
+        ok = ob["pre"] == "ok" and ob["write"] == "ok" and ob["read"] == "ok" and not ob["spec"]
+        print(json.dumps({k: v for k, v in ob.items()}, ensure_ascii=False, default=str))
+        print("REPLAY: property holds on this input" if ok else "REPLAY: property FAILS on this input")
+        return 0 if ok else 1
     if "history" in c:
         obs = history_run(c["history"])
         last = obs[-1]
